@@ -1431,6 +1431,21 @@ def m_iter_adapter(I, st, args, dty, site):
     (its obligations are recorded); the adapter itself is an unknown-length iterator."""
     it = as_iter(I, st, args[0])
     clo = args[1]
+    if it is not None and it[0] == 'it' and it[1] == 'seq' and site['callee'].endswith('::map') and len(it[2]) - it[3] <= 12 and clo is not None and clo[0] in ('clo', 'fn'):
+        # map over a known short sequence with a closure that has exactly one outcome per element and changes nothing: the mapped sequence
+        s = st.clone()
+        mapped = []
+        for e in it[2][it[3]:]:
+            arg = ('r', I.alloc(s, e)) if it[4] else e
+            iv0 = dict(s.iv)
+            r = I.call_closure(s, clo, [arg], site)
+            if r is None or len(r) != 1 or r[0][0].dead:
+                mapped = None
+                break
+            s, v = r[0]
+            mapped.append(v)
+        if mapped is not None:
+            return [(s, ('it', 'seq', tuple(mapped), 0, False))]
     s = st.clone()
     if it is not None and it[0] == 'it' and it[1] == 'vec':
         vec_sync(I, s, it[2])
@@ -2480,6 +2495,8 @@ def m_partial_eq_default(I, st, args, dty, site):
             for vb in b[2]:
                 outs.append((st.clone(), const_int(1 if ((va == vb) != ne) else 0, 'bool')))
         return outs
+    if a is not None and a[0] == 'e' and a[1] == OPTION:
+        return m_opt_eq(I, st, args, dty, site)
     if a is not None and a[0] in ('s', 'e'):
         cand = f'<{a[1]} as std::cmp::PartialEq>::eq'
         if cand in I.bodies:
@@ -2508,9 +2525,39 @@ def m_split_once(I, st, args, dty, site):
     return [(s1, none()), (s2, some(('t', (('str', a), ('str', b)))))]
 
 
-@model('<std::option::Option<T> as std::cmp::PartialEq>::eq')
+@model('<std::option::Option<T> as std::cmp::PartialEq>::eq', '<std::option::Option<T> as std::cmp::PartialEq>::ne')
 def m_opt_eq(I, st, args, dty, site):
-    return [(st, I.top(st, {'k': 'bool'}, 'eq'))]
+    a, b = deref(I, st, args[0]), deref(I, st, args[1])
+    ne = site['callee'].endswith('::ne')
+    va, vb = _opt_variants(I, st, a), _opt_variants(I, st, b)
+    if va is None or vb is None:
+        return [(st, I.top(st, {'k': 'bool'}, 'eq'))]
+    outs = []
+    for _s1, x in va:
+        for _s2, y in vb:
+            s3 = st.clone()
+            # the variants of both operands on this path (an operand with both variants possible is narrowed to the chosen one)
+            for v, pick in ((a, x), (b, y)):
+                pass
+            if (x is None) != (y is None):
+                outs.append((s3, const_int(1 if ne else 0, 'bool')))
+            elif x is None:
+                outs.append((s3, const_int(0 if ne else 1, 'bool')))
+            else:
+                px, py = x, y
+                for _ in range(2):
+                    if px is not None and px[0] == 'r':
+                        px = deref(I, s3, px)
+                    if py is not None and py[0] == 'r':
+                        py = deref(I, s3, py)
+                if _intarg(px) and _intarg(py):
+                    for op, val in (('Eq', 1), ('Ne', 0)):
+                        s4 = s3.clone()
+                        if D.refine_cmp(s4, op, px[1], py[1]):
+                            outs.append((s4, const_int(val if not ne else 1 - val, 'bool')))
+                else:
+                    outs.append((s3, I.top(s3, {'k': 'bool'}, 'eq')))
+    return outs
 
 
 @model_if(lambda n: n.startswith('core::num::<impl ') and (n.endswith('::saturating_add') or n.endswith('::saturating_sub')))
